@@ -97,7 +97,7 @@ pub fn parse_args(prop: &str) -> Args {
         prop: prop.to_string(),
         tier: Tier::Quick,
         seed: std::env::var("VERIF_SEED").ok().and_then(|s| s.parse().ok()).unwrap_or(1),
-        out: PathBuf::from(format!("/verif/work/{}", prop)),
+        out: verif_root().join("work").join(prop),
         driver: None,
         replay: None,
     };
@@ -456,7 +456,7 @@ impl Session {
         std::fs::create_dir_all(&self.args.out).ok();
         let known = load_known(&self.args.prop);
         let prop = self.args.prop.clone();
-        let replay_dir = PathBuf::from("/verif/replays");
+        let replay_dir = verif_root().join("replays");
         std::fs::create_dir_all(&replay_dir).ok();
 
         // --- model comparison
@@ -614,6 +614,12 @@ pub fn key_matches(pattern: &str, key: &str) -> bool {
     }
 }
 
+/// root of the verification tree this binary works for: `$VERIF_ROOT` (set by `./check` to its own directory, so that a scratch
+/// copy writes its replays into the copy), else /verif
+pub fn verif_root() -> PathBuf {
+    std::env::var("VERIF_ROOT").map(PathBuf::from).unwrap_or_else(|_| PathBuf::from("/verif"))
+}
+
 /// the part of an output line that decides agreement (before ` ## `)
 pub fn primary_part(l: &str) -> &str {
     match l.find(" ## ") {
@@ -630,8 +636,8 @@ pub fn drift_part(l: &str) -> &str {
 }
 
 pub fn load_known(prop: &str) -> Vec<Known> {
-    let p = Path::new("/verif/known_findings.json");
-    let Ok(txt) = std::fs::read_to_string(p) else { return vec![] };
+    let p = verif_root().join("known_findings.json");
+    let Ok(txt) = std::fs::read_to_string(&p) else { return vec![] };
     let Ok(v) = serde_json::from_str::<serde_json::Value>(&txt) else { return vec![] };
     let mut out = vec![];
     if let Some(a) = v["entries"].as_array() {
